@@ -196,7 +196,7 @@ class AbstractDateTime(AnyAtomicType):
             raise OverflowError("year overflow")
         else:
             self._year = year
-            if isleap(year + bool(year < 0 and self._xsd_version != '1.0')):
+            if isleap(year + bool(year < 0)):
                 self._dt = datetime.datetime(4, month, day, hour, minute,
                                              second, microsecond, tzinfo)
             else:
